@@ -94,6 +94,12 @@ PLANS["rerun-rmdone-ok"] = P(
     submit_all("abc") + [["rmdone", "b"], ["restart"]] + submit_all("abc"),
 )
 
+# a job DONE through its marker whose upstream is re-run and fails afterwards, then submitted once more (C05: no second job)
+PLANS["rerun-rmdone-dup"] = P(
+    {"a": {"codes": [0, 1]}, "b": {"deps": {"a": "direct"}}},
+    submit_all("ab") + [["rmdone", "a"], ["restart"], ["submit", "a"], ["submit", "b"], ["waitjob", "a"], ["submit", "b"], ["wait"]],
+)
+
 PLANS["kill-restart-fail"] = P(
     {"a": {"codes": [1]}, "b": {"deps": {"a": "direct"}}},
     [["submit", "a"], ["kill"], ["restart"], ["submit", "a"], ["submit", "b"], ["wait"]],
@@ -110,5 +116,15 @@ PLANS["stop-restart-fail"] = P({"a": {"codes": [1, 0]}, "b": {"deps": {"a": "lis
                                [["submit", "a"], ["submit", "b"], ["submit", "c"], WS, ["restart"]] + submit_all("abc"))
 PLANS["stop-restart-tok"] = P({"a": {"tok": {"t": 1}}, "b": {"tok": {"t": 1}}},
                               [["submit", "a"], ["submit", "b"], WS, ["restart"]] + submit_all("ab"), {"t": 1})
+
+# --- a job process killed from outside (no marker, stale pid file), in this run or adopted by the next one (C06, C07, C11)
+PLANS["oom"] = P({"a": {"codes": [9]}, "b": {"deps": {"a": "direct"}}, "c": {}}, submit_all("abc"))
+PLANS["oom-resubmit"] = P({"a": {"codes": [9, 0]}, "b": {"deps": {"a": "list"}}},
+                          [["submit", "a"], ["waitjob", "a"], ["submit", "a"], ["submit", "b"], ["wait"]])
+PLANS["oom-rerun"] = P({"a": {"codes": [9, 0]}, "b": {"deps": {"a": "direct"}}}, submit_all("ab") + [["restart"]] + submit_all("ab"))
+PLANS["kill-restart-oom"] = P(
+    {"a": {"codes": [9]}, "b": {"deps": {"a": "direct"}}},
+    [["submit", "a"], ["submit", "b"], ["kill"], ["restart"], ["submit", "a"], ["submit", "b"], ["wait"]],
+)
 
 QUICK = list(PLANS)
